@@ -490,6 +490,29 @@ def r6(chk, prog, m):
                     chk.refuted(rid, fname, sig, c.locstr(), "the length passed with the data is strlen of it, not the stored length")
                 else:
                     chk.undecided(rid, fname, sig, c.locstr(), "no argument of this call is recognisably the stored length")
+    # everywhere else in the module: the node's data pointer must not reach a routine that compares / measures / copies up to the
+    # first NUL (conversions of the text to a number stop at a NUL by definition and are not listed here)
+    STRICT_SCANNERS = {"strcmp", "strcasecmp", "strncmp", "strncasecmp", "strlen", "strdup", "strcpy", "strcat", "strchr", "strrchr", "strstr"}
+    for f in [g for g in m.functions.values() if not g.is_decl and g.name not in targets]:
+        srcs = [i for i in f.instrs() if i.op == "call" and i.callee in DATA_SOURCES and i.res is not None]
+        if not srcs:
+            continue
+        cfg = cfg_of(f)
+        data = {i.res for i in srcs}
+        work = list(data)
+        while work:
+            r = work.pop()
+            for u in cfg.users(r):
+                if u.op in ("bitcast", "phi", "select", "getelementptr") and u.res is not None and u.res not in data:
+                    data.add(u.res)
+                    work.append(u.res)
+        for c in f.instrs():
+            if c.op == "call" and c.callee in STRICT_SCANNERS and any(o.kind == "reg" and o.v in data for o in c.ops):
+                n += 1
+                chk.touched(f)
+                chk.refuted(rid, f.name, "%s in %s" % (c.callee, f.name), c.locstr(),
+                            "the string's data pointer is handed to %s, which stops at the first NUL: contents with an embedded NUL are "
+                            "treated as their prefix (the stored length is ignored)" % c.callee)
     chk.floor(rid, n, 3, "consumers of string data in equality / copy / serialization")
 
 
